@@ -1,3 +1,31 @@
-import GV.Orch.Spec
+/-
+  C09 — Rule faults are contained (engine level): no execution method panics, whatever the
+  rules' outcomes; the error policy is followed.  (Rule level: GV.Props.C09 in Eval.)
+-/
+import GV.Orch.AllConform
 namespace GV.Props.C09
+open GV.Orch GV.Generated.Orch
+
+/-- No method ends in a panic (nil result map, nil rule dereference, unknown statement),
+    for any configuration satisfying the caller's contract. -/
+theorem C09_engine_no_panic (m : Method) (cfg : Cfg) (hp : Pre cfg) :
+    (run (All.skelOf m) cfg).2 ≠ .panicked := by
+  have h := congrArg Obs.fin (All.conforms_all m cfg hp)
+  simp only [obsOf, expectObs] at h
+  rw [h]
+  split <;> simp
+
+/-- Every fan-out is well formed (Add = number of goroutines, Done on every path, Wait). -/
+theorem C09_engine_no_hang (m : Method) (cfg : Cfg) (hp : Pre cfg) :
+    (run (All.skelOf m) cfg).1.parOk = true := by
+  have h := congrArg Obs.parOk (All.conforms_all m cfg hp)
+  simpa [obsOf, expectObs] using h
+
+/-- A failing rule is reported: the call returns an error iff a rule that ran failed
+    (or the call was rejected up front). -/
+theorem C09_engine_error_reported (m : Method) (cfg : Cfg) (hp : Pre cfg) :
+    (run (All.skelOf m) cfg).2 = (if (expect m cfg).err then .retErr else .retOk) := by
+  have h := congrArg Obs.fin (All.conforms_all m cfg hp)
+  simpa [obsOf, expectObs] using h
+
 end GV.Props.C09
